@@ -2,7 +2,7 @@
 from spec.api import contract, implies, iff, ite
 from spec.terms import (tsize, loose, lift, inst_bound, fv, fv_name, same_var, abstract, abstract_ok,
                         head_of, nargs_of, args_of, is_app, is_app_any, is_variable, lift_closed,
-                        ty_of, wt, weak_wt, is_fun_ty, fun_ty, bool_ty, rargs_of, rev_Term, rev_rargs, len_args, args_small)
+                        ty_of, wt, weak_wt, is_fun_ty, fun_ty, bool_ty, rargs_of, rev_Term, rev_rargs, len_args, args_small, app_shapes)
 
 
 @contract("kernel.term.Term.size")
@@ -27,6 +27,20 @@ class is_comb:
         return result == (self.is_comb() and
                           (name is None or (head_of(self).is_const() and head_of(self).name == name and
                                             (nargs is None or nargs_of(self) == nargs))))
+
+    def hint(self):
+        app_shapes(self)
+
+    def ensures_shapes(self, name, nargs, result):
+        # spines of length 1, 2, 3 spelled out, so that callers need not unfold head_of / nargs_of
+        return implies(nargs_of(self) == 1, self.is_comb() and head_of(self) == self.fun and
+                       not self.fun.is_comb()) and \
+            implies(nargs_of(self) == 2, self.is_comb() and self.fun.is_comb() and
+                    head_of(self) == self.fun.fun and not self.fun.fun.is_comb()) and \
+            implies(nargs_of(self) == 3, self.is_comb() and self.fun.is_comb() and self.fun.fun.is_comb() and
+                    head_of(self) == self.fun.fun.fun and not self.fun.fun.fun.is_comb()) and \
+            implies(self.is_comb() and not self.fun.is_comb(), nargs_of(self) == 1) and \
+            implies(self.is_comb() and self.fun.is_comb() and not self.fun.fun.is_comb(), nargs_of(self) == 2)
 
     def invariant0(self, t, count):
         return self.is_comb() and head_of(t) == head_of(self.fun) and \
